@@ -22,14 +22,18 @@ From Juniper Require Import Common.Base Iter.Syntax Iter.Config Iter.ModelBase I
 Section LoopMono.
   Context {St : Type} (nx : St -> ret Z St).
 
-  Lemma ifilter_mono keep : forall n s o s' ev,
-    ifilter nx n keep s = (o, s', ev) -> o <> Out -> forall d, ifilter nx (n + d) keep s = (o, s', ev).
+  Lemma ifilter_mono keep fl : forall n c s o w ev,
+    ifilter nx n keep fl c s = (o, w, ev) -> o <> Out ->
+    forall d, ifilter nx (n + d) keep fl c s = (o, w, ev).
   Proof.
-    induction n as [|n IH]; intros s o s' ev H Hno d; simpl in H; [inv_ret H; congruence|].
+    induction n as [|n IH]; intros c s o w ev H Hno d; simpl in H;
+      [injection H as ? ? ?; subst; congruence|].
     simpl. destruct (nx s) as [[a t] e]. destruct a as [x| | | |]; try exact H.
+    destruct (panics_now fl c); [exact H|].
     destruct (pred_eval keep x); [exact H|].
-    destruct (ifilter nx n keep t) as [[o3 t3] e3] eqn:E3. simpl in H. inv_ret H.
-    rewrite (IH _ _ _ _ E3 Hno d). reflexivity.
+    destruct (ifilter nx n keep fl (S c) t) as [[o3 t3] e3] eqn:E3. simpl in H.
+    injection H as ? ? ?; subst.
+    rewrite (IH _ _ _ _ _ E3 Hno d). reflexivity.
   Qed.
 
   Lemma icompact_mono r : forall n fi pv s o w ev,
@@ -99,21 +103,24 @@ Section OverSliceLike.
       rewrite Hs. split; [reflexivity|eapply cchain_1; eauto].
   Qed.
 
-  Lemma ifilter_B keep : forall n s o s' ev,
-    inv s -> ifilter nx n keep s = (o, s', ev) -> o <> Out ->
-    inv s' /\ exists m, ifilter (slice_nx id) n keep (den s) = (o, den s', pulls id m) /\
+  Lemma ifilter_B keep fl : forall n c s o c' s' ev,
+    inv s -> ifilter nx n keep fl c s = (o, (c', s'), ev) -> o <> Out ->
+    inv s' /\ exists m, ifilter (slice_nx id) n keep fl c (den s)
+                        = (o, (c', den s'), pulls id m) /\
                         cchain m s ev s'.
   Proof.
-    induction n as [|n IH]; intros s o s' ev Hi H Hno; simpl in H; [inv_ret H; congruence|].
+    induction n as [|n IH]; intros c s o c' s' ev Hi H Hno; simpl in H; [inv_ret H; congruence|].
     simpl. destruct (nx s) as [[a t] e] eqn:E.
     assert (Ha : a <> Out) by (intros Hx; subst a; inv_ret H; congruence).
     destruct (Hc _ _ _ _ Hi E Ha) as [Hi' Hs]. rewrite Hs.
     destruct a as [x| | | |]; try (inv_ret H; split; [exact Hi'|]; exists 1%nat;
                                    split; [reflexivity|eapply cchain_1; eauto]; fail).
+    destruct (panics_now fl c).
+    { inv_ret H. split; [exact Hi'|]. exists 1%nat. split; [reflexivity|eapply cchain_1; eauto]. }
     destruct (pred_eval keep x).
     - inv_ret H. split; [exact Hi'|]. exists 1%nat. split; [reflexivity|eapply cchain_1; eauto].
-    - destruct (ifilter nx n keep t) as [[o3 t3] e3] eqn:E3. simpl in H. inv_ret H.
-      destruct (IH _ _ _ _ Hi' E3 Hno) as (Hi3 & m & Hs3 & C3). split; [exact Hi3|].
+    - destruct (ifilter nx n keep fl (S c) t) as [[o3 [c3 t3]] e3] eqn:E3. simpl in H. inv_ret H.
+      destruct (IH _ _ _ _ _ _ Hi' E3 Hno) as (Hi3 & m & Hs3 & C3). split; [exact Hi3|].
       exists (S m). rewrite Hs3. split; [reflexivity|]. eapply cchain_S; eauto.
   Qed.
 
@@ -152,21 +159,22 @@ Section OverSliceLike.
       exists 1%nat. split; [reflexivity|eapply cchain_1; eauto].
   Qed.
 
-  Lemma imap_B f s o s' ev :
-    inv s -> imap nx f s = (o, s', ev) -> o <> Out ->
-    inv s' /\ exists m, imap (slice_nx id) f (den s) = (o, den s', pulls id m) /\
+  Lemma imap_B f fl c s o c' s' ev :
+    inv s -> imap nx f fl c s = (o, (c', s'), ev) -> o <> Out ->
+    inv s' /\ exists m, imap (slice_nx id) f fl c (den s) = (o, (c', den s'), pulls id m) /\
                         cchain m s ev s'.
   Proof.
     unfold imap. intros Hi H Hno. destruct (nx s) as [[a t] e] eqn:E.
     assert (Ha : a <> Out) by (intros Hx; subst a; inv_ret H; congruence).
     destruct (Hc _ _ _ _ Hi E Ha) as [Hi' Hs]. rewrite Hs.
-    destruct a; inv_ret H; (split; [exact Hi'|]); exists 1%nat;
-      (split; [reflexivity|eapply cchain_1; eauto]).
+    destruct a; [destruct (panics_now fl c)| | | |]; inv_ret H; (split; [exact Hi'|]);
+      exists 1%nat; (split; [reflexivity|eapply cchain_1; eauto]).
   Qed.
 
-  Lemma iwhile_B f d s o d' s' ev :
-    inv s -> iwhile nx f d s = (o, (d', s'), ev) -> o <> Out ->
-    inv s' /\ exists m, iwhile (slice_nx id) f d (den s) = (o, (d', den s'), pulls id m) /\
+  Lemma iwhile_B f fl c d s o c' d' s' ev :
+    inv s -> iwhile nx f fl c d s = (o, (c', d', s'), ev) -> o <> Out ->
+    inv s' /\ exists m, iwhile (slice_nx id) f fl c d (den s)
+                        = (o, (c', d', den s'), pulls id m) /\
                         cchain m s ev s'.
   Proof.
     unfold iwhile. intros Hi H Hno. destruct d.
@@ -174,7 +182,8 @@ Section OverSliceLike.
     - destruct (nx s) as [[a t] e] eqn:E.
       assert (Ha : a <> Out) by (intros Hx; subst a; inv_ret H; congruence).
       destruct (Hc _ _ _ _ Hi E Ha) as [Hi' Hs]. rewrite Hs.
-      destruct a as [y| | | |]; [destruct (pred_eval f y)| | | |]; inv_ret H;
+      destruct a as [y| | | |];
+        [destruct (panics_now fl c); [|destruct (pred_eval f y)]| | | |]; inv_ret H;
         (split; [exact Hi'|]); exists 1%nat; (split; [reflexivity|eapply cchain_1; eauto]).
   Qed.
 
@@ -230,15 +239,19 @@ Section Iso.
     unfold ifirst. destruct (x <=? 0); [reflexivity|]. rewrite H.
     destruct (nx1 a) as [[o a1] ev1]. reflexivity.
   Qed.
-  Lemma imap_iso f a : imap nx2 f (g a) = let '(o, a', ev) := imap nx1 f a in (o, g a', ev).
+  Lemma imap_iso f fl c a :
+    imap nx2 f fl c (g a) = let '(o, (c', a'), ev) := imap nx1 f fl c a in (o, (c', g a'), ev).
   Proof.
-    unfold imap. rewrite H. destruct (nx1 a) as [[o a1] ev1]. destruct o; reflexivity.
+    unfold imap. rewrite H. destruct (nx1 a) as [[o a1] ev1]. destruct o; try reflexivity.
+    destruct (panics_now fl c); reflexivity.
   Qed.
-  Lemma iwhile_iso f d a :
-    iwhile nx2 f d (g a) = let '(o, (d', a'), ev) := iwhile nx1 f d a in (o, (d', g a'), ev).
+  Lemma iwhile_iso f fl c d a :
+    iwhile nx2 f fl c d (g a)
+    = let '(o, (c', d', a'), ev) := iwhile nx1 f fl c d a in (o, (c', d', g a'), ev).
   Proof.
     unfold iwhile. destruct d; [reflexivity|]. rewrite H.
     destruct (nx1 a) as [[o a1] ev1]. destruct o as [y| | | |]; try reflexivity.
+    destruct (panics_now fl c); [reflexivity|].
     destruct (pred_eval f y); reflexivity.
   Qed.
 End Iso.
@@ -333,32 +346,35 @@ End ComposeRun.
 (* ---- one step of each combinator over an arbitrary inner state s and over Slice (iden s) ---- *)
 Definition isout {A B C} (b : res A * B * C) : Prop := fst (fst b) = Out.
 
-Lemma filter_hstep keep (sg : unit) s o st' ev :
-  iok s -> irun_next (RZ (IFilter keep s)) = (o, st', ev) ->
-  exists (sg' : unit) s' m, st' = RZ (IFilter keep s') /\ iok s' /\ gchain m s ev s' /\
-    irun_next (RZ (IFilter keep (sl s))) = (o, RZ (IFilter keep (sl s')), pulls 0 m).
+Lemma filter_hstep keep fl (sg : nat) s o st' ev :
+  iok s -> irun_next (RZ (IFilter keep fl sg s)) = (o, st', ev) ->
+  exists (sg' : nat) s' m, st' = RZ (IFilter keep fl sg' s') /\ iok s' /\ gchain m s ev s' /\
+    irun_next (RZ (IFilter keep fl sg (sl s))) = (o, RZ (IFilter keep fl sg' (sl s')), pulls 0 m).
 Proof.
   intros Hok H. unfold irun_next in H.
-  destruct (istep (IFilter keep s)) as [[o1 s1] e1] eqn:E. inv_ret H.
+  destruct (istep (IFilter keep fl sg s)) as [[o1 s1] e1] eqn:E. inv_ret H.
   pose proof (inext_fuel_enough _ _ _ _ E) as Hno. rewrite istep_filter in E.
-  destruct (ifilter (inext (S (isize s))) (S (S (isize s))) keep s) as [[o2 p2] e2] eqn:E2.
+  destruct (ifilter (inext (S (isize s))) (S (S (isize s))) keep fl sg s)
+    as [[o2 [c2 p2]] e2] eqn:E2.
   inv_ret E.
-  destruct (ifilter_B (inext (S (isize s))) iden iok 0 (inext_slice_view _) keep _ _ _ _ _
+  destruct (ifilter_B (inext (S (isize s))) iden iok 0 (inext_slice_view _) keep fl _ _ _ _ _ _ _
                       Hok E2 Hno) as (Hok' & m & Hs & Hc).
-  exists tt, p2, m. split; [reflexivity|]. split; [exact Hok'|].
+  exists c2, p2, m. split; [reflexivity|]. split; [exact Hok'|].
   split; [eapply cchain_gchain; exact Hc|].
-  unfold irun_next, sl. destruct (istep (IFilter keep (ISrc 0 (ISlice (iden s))))) as [[o3 s3] e3] eqn:E3.
+  unfold irun_next, sl.
+  destruct (istep (IFilter keep fl sg (ISrc 0 (ISlice (iden s))))) as [[o3 s3] e3] eqn:E3.
   pose proof (inext_fuel_enough _ _ _ _ E3) as Hno3. rewrite istep_filter in E3.
   cbn [isize isrc_size] in E3.
   rewrite (ifilter_iso (slice_nx 0) (inext (S (S (length (iden s))))) (fun a => ISrc 0 (ISlice a))
-             keep (fun a0 => inext_slice (S (length (iden s))) 0 a0)) in E3.
-  destruct (ifilter (slice_nx 0) (S (S (S (length (iden s))))) keep (iden s)) as [[o4 a4] e4] eqn:E4.
+             keep fl (fun a0 => inext_slice (S (length (iden s))) 0 a0)) in E3.
+  destruct (ifilter (slice_nx 0) (S (S (S (length (iden s))))) keep fl sg (iden s))
+    as [[o4 [c4 a4]] e4] eqn:E4.
   inv_ret E3.
-  pose proof (stable2 (fun n => ifilter (slice_nx 0) n keep (iden s)) isout
+  pose proof (stable2 (fun n => ifilter (slice_nx 0) n keep fl sg (iden s)) isout
                 (fun n b => match b with (ob, sb, eb) => fun Hb Hn =>
-                   ifilter_mono (slice_nx 0) keep n _ _ _ _ Hb Hn end)
+                   ifilter_mono (slice_nx 0) keep fl n _ _ _ _ _ Hb Hn end)
                 _ _ _ _ Hs Hno E4 Hno3) as Heq.
-  injection Heq as ? ? ?; subst. reflexivity.
+  injection Heq as ? ? ? ?; subst. reflexivity.
 Qed.
 
 Lemma compact_hstep r (sg : bool * Z) s o st' ev :
@@ -473,18 +489,18 @@ Proof.
   rewrite Hs. reflexivity.
 Qed.
 
-Lemma map_hstep g (sg : unit) s o st' ev :
-  iok s -> irun_next (RZ (IMap g s)) = (o, st', ev) ->
-  exists (sg' : unit) s' m, st' = RZ (IMap g s') /\ iok s' /\ gchain m s ev s' /\
-    irun_next (RZ (IMap g (sl s))) = (o, RZ (IMap g (sl s')), pulls 0 m).
+Lemma map_hstep g fl (sg : nat) s o st' ev :
+  iok s -> irun_next (RZ (IMap g fl sg s)) = (o, st', ev) ->
+  exists (sg' : nat) s' m, st' = RZ (IMap g fl sg' s') /\ iok s' /\ gchain m s ev s' /\
+    irun_next (RZ (IMap g fl sg (sl s))) = (o, RZ (IMap g fl sg' (sl s')), pulls 0 m).
 Proof.
   intros Hok H. unfold irun_next in H.
-  destruct (istep (IMap g s)) as [[o1 s1] e1] eqn:E. inv_ret H.
+  destruct (istep (IMap g fl sg s)) as [[o1 s1] e1] eqn:E. inv_ret H.
   pose proof (inext_fuel_enough _ _ _ _ E) as Hno. rewrite istep_map in E.
-  destruct (imap (inext (S (isize s))) g s) as [[o2 p2] e2] eqn:E2. inv_ret E.
-  destruct (imap_B (inext (S (isize s))) iden iok 0 (inext_slice_view _) _ _ _ _ _
+  destruct (imap (inext (S (isize s))) g fl sg s) as [[o2 [c2 p2]] e2] eqn:E2. inv_ret E.
+  destruct (imap_B (inext (S (isize s))) iden iok 0 (inext_slice_view _) _ _ _ _ _ _ _ _
                    Hok E2 Hno) as (Hok' & m & Hs & Hc).
-  exists tt, p2, m. split; [reflexivity|]. split; [exact Hok'|].
+  exists c2, p2, m. split; [reflexivity|]. split; [exact Hok'|].
   split; [eapply cchain_gchain; exact Hc|].
   unfold irun_next, sl. rewrite istep_map. cbn [isize isrc_size].
   rewrite (imap_iso (slice_nx 0) (inext (S (S (length (iden s))))) (fun a => ISrc 0 (ISlice a))
@@ -492,18 +508,20 @@ Proof.
   rewrite Hs. reflexivity.
 Qed.
 
-Lemma while_hstep f (sg : bool) s o st' ev :
-  iok s -> irun_next (RZ (IWhile f sg s)) = (o, st', ev) ->
-  exists (sg' : bool) s' m, st' = RZ (IWhile f sg' s') /\ iok s' /\ gchain m s ev s' /\
-    irun_next (RZ (IWhile f sg (sl s))) = (o, RZ (IWhile f sg' (sl s')), pulls 0 m).
+Lemma while_hstep f fl (sg : nat * bool) s o st' ev :
+  iok s -> irun_next (RZ (IWhile f fl (fst sg) (snd sg) s)) = (o, st', ev) ->
+  exists (sg' : nat * bool) s' m, st' = RZ (IWhile f fl (fst sg') (snd sg') s') /\ iok s' /\
+    gchain m s ev s' /\
+    irun_next (RZ (IWhile f fl (fst sg) (snd sg) (sl s)))
+    = (o, RZ (IWhile f fl (fst sg') (snd sg') (sl s')), pulls 0 m).
 Proof.
-  intros Hok H. unfold irun_next in H.
-  destruct (istep (IWhile f sg s)) as [[o1 s1] e1] eqn:E. inv_ret H.
+  destruct sg as [c d]. cbn [fst snd]. intros Hok H. unfold irun_next in H.
+  destruct (istep (IWhile f fl c d s)) as [[o1 s1] e1] eqn:E. inv_ret H.
   pose proof (inext_fuel_enough _ _ _ _ E) as Hno. rewrite istep_while in E.
-  destruct (iwhile (inext (S (isize s))) f sg s) as [[o2 [d2 p2]] e2] eqn:E2. inv_ret E.
-  destruct (iwhile_B (inext (S (isize s))) iden iok 0 (inext_slice_view _) _ _ _ _ _ _ _
+  destruct (iwhile (inext (S (isize s))) f fl c d s) as [[o2 [[c2 d2] p2]] e2] eqn:E2. inv_ret E.
+  destruct (iwhile_B (inext (S (isize s))) iden iok 0 (inext_slice_view _) _ _ _ _ _ _ _ _ _ _
                      Hok E2 Hno) as (Hok' & m & Hs & Hc).
-  exists d2, p2, m. split; [reflexivity|]. split; [exact Hok'|].
+  exists (c2, d2), p2, m. cbn [fst snd]. split; [reflexivity|]. split; [exact Hok'|].
   split; [eapply cchain_gchain; exact Hc|].
   unfold irun_next, sl. rewrite istep_while. cbn [isize isrc_size].
   rewrite (iwhile_iso (slice_nx 0) (inext (S (S (length (iden s))))) (fun a => ISrc 0 (ISlice a))
@@ -537,12 +555,12 @@ Lemma compose_logs (Sg : Type) (mk : Sg -> ist -> irun_st) (sg0 : Sg) cfg (p ps 
      exists sg' s' m, st' = mk sg' s' /\ iok s' /\ gchain m s ev s' /\
        irun_next (mk sg (sl s)) = (o, mk sg' (sl s'), pulls 0 m)) ->
   irun_init p = mk sg0 (iinit q) -> irun_init ps = mk sg0 (sl (iinit q)) ->
-  dom_z q ->
+  dom_z q -> no_panics_z q = true ->
   ro_log (run_iter_cfg cfg p (ksteps k))
   = ro_log (run_iter_cfg cfg (inl q)
               (ksteps (pulls_in (run_iter_cfg cfg ps (ksteps k)) 0))).
 Proof.
-  intros Hstep Hp Hps Hd. pose proof (proj1 iinit_ok q Hd) as Hok.
+  intros Hstep Hp Hps Hd Hnp. pose proof (proj1 iinit_ok q Hd Hnp) as Hok.
   unfold pulls_in. rewrite !ro_log_steps, Hp, Hps.
   destruct (compose_run Sg mk Hstep (sort_ids (pipe_ids p)) (sort_ids (pipe_ids ps)) k sg0
                         (iinit q) [] [] Hok) as (M & E & s' & H1 & H2 & H3).
@@ -552,57 +570,61 @@ Proof.
   intros L. apply (proj1 (irel_refl_both L)).
 Qed.
 
-(* C over an arbitrary inner pipeline q pulls from q's sources exactly what m stand-alone Next
-   calls on q pull, m = the number of calls C makes on a Slice holding q's items *)
+(* C over an arbitrary inner pipeline q (in which nothing panics) pulls from q's sources exactly
+   what m stand-alone Next calls on q pull, m = the number of calls C makes on a Slice holding
+   q's items - whether or not C's own callback panics *)
 Theorem compose_pulls cfg c q k :
-  iter_supported_z q = true -> dom_z q ->
+  iter_supported_z q = true -> dom_z q -> no_panics_z q = true ->
   let m := pulls_in (run_iter_cfg cfg (plug c (ZSrc 0 (SSlice (den_z q)))) (ksteps k)) 0 in
   ro_log (run_iter_cfg cfg (plug c q) (ksteps k))
   = ro_log (run_iter_cfg cfg (inl q) (ksteps m)).
 Proof.
-  intros Hs Hd m. unfold m.
+  intros Hs Hd Hnp m. unfold m.
   assert (Hden : iden (iinit q) = den_z q) by (apply (proj1 iinit_den); exact Hs).
   destruct c as [|r|f fl|n|g fl|f fl|n]; cbn [plug].
   - apply (compose_logs (bool * Z) (fun sg s => RZ (IPeek (mkPk (fst sg) (snd sg) s))) (false, 0));
-      [intros sg s o st' ev; apply peek_hstep|reflexivity| |exact Hd].
+      [intros sg s o st' ev; apply peek_hstep|reflexivity| |exact Hd|exact Hnp].
     unfold sl. rewrite Hden. reflexivity.
   - apply (compose_logs (bool * Z) (fun sg s => RZ (ICompact r (fst sg) (snd sg) s)) (true, 0));
-      [intros sg s o st' ev; apply compact_hstep|reflexivity| |exact Hd].
+      [intros sg s o st' ev; apply compact_hstep|reflexivity| |exact Hd|exact Hnp].
     unfold sl. rewrite Hden. reflexivity.
-  - apply (compose_logs unit (fun _ s => RZ (IFilter f s)) tt);
-      [intros sg s o st' ev; apply (filter_hstep f sg)|reflexivity| |exact Hd].
+  - apply (compose_logs nat (fun sg s => RZ (IFilter f fl sg s)) O);
+      [intros sg s o st' ev; apply (filter_hstep f fl sg)|reflexivity| |exact Hd|exact Hnp].
     unfold sl. rewrite Hden. reflexivity.
   - apply (compose_logs Z (fun sg s => RZ (IFirst sg s)) n);
-      [intros sg s o st' ev; apply first_hstep|reflexivity| |exact Hd].
+      [intros sg s o st' ev; apply first_hstep|reflexivity| |exact Hd|exact Hnp].
     unfold sl. rewrite Hden. reflexivity.
-  - apply (compose_logs unit (fun _ s => RZ (IMap g s)) tt);
-      [intros sg s o st' ev; apply (map_hstep g sg)|reflexivity| |exact Hd].
+  - apply (compose_logs nat (fun sg s => RZ (IMap g fl sg s)) O);
+      [intros sg s o st' ev; apply (map_hstep g fl sg)|reflexivity| |exact Hd|exact Hnp].
     unfold sl. rewrite Hden. reflexivity.
-  - apply (compose_logs bool (fun sg s => RZ (IWhile f sg s)) false);
-      [intros sg s o st' ev; apply while_hstep|reflexivity| |exact Hd].
+  - apply (compose_logs (nat * bool) (fun sg s => RZ (IWhile f fl (fst sg) (snd sg) s)) (O, false));
+      [intros sg s o st' ev; apply while_hstep|reflexivity| |exact Hd|exact Hnp].
     unfold sl. rewrite Hden. reflexivity.
   - apply (compose_logs unit (fun _ s => RL (IChunk n s)) tt);
-      [intros sg s o st' ev; apply (chunk_hstep n sg)|reflexivity| |exact Hd].
+      [intros sg s o st' ev; apply (chunk_hstep n sg)|reflexivity| |exact Hd|exact Hnp].
     unfold sl. rewrite Hden. reflexivity.
 Qed.
 
 (* in particular the pull counts of every source *)
 Corollary compose_pull_counts cfg c q k id :
-  iter_supported_z q = true -> dom_z q ->
+  iter_supported_z q = true -> dom_z q -> no_panics_z q = true ->
   let m := pulls_in (run_iter_cfg cfg (plug c (ZSrc 0 (SSlice (den_z q)))) (ksteps k)) 0 in
   pulls_in (run_iter_cfg cfg (plug c q) (ksteps k)) id
   = pulls_in (run_iter_cfg cfg (inl q) (ksteps m)) id.
-Proof. intros Hs Hd m. unfold pulls_in. rewrite (compose_pulls cfg c q k Hs Hd). reflexivity. Qed.
+Proof.
+  intros Hs Hd Hnp m. unfold pulls_in. rewrite (compose_pulls cfg c q k Hs Hd Hnp). reflexivity.
+Qed.
 
 (* with the closed formulas of GapsPulls.v, e.g. Filter over any pipeline: *)
 Corollary filter_over_any cfg keep fl q k id :
-  iter_supported_z q = true -> dom_z q ->
+  iter_supported_z q = true -> dom_z q -> no_panics_z q = true -> cb_panics fl = false ->
   pulls_in (run_iter_cfg cfg (inl (ZFilter keep fl q)) (ksteps k)) id
   = pulls_in (run_iter_cfg cfg (inl q) (ksteps (filter_pos keep (den_z q) k))) id.
 Proof.
-  intros Hs Hd. pose proof (compose_pull_counts cfg (XFilter keep fl) q k id Hs Hd) as H.
+  intros Hs Hd Hnp Hfl.
+  pose proof (compose_pull_counts cfg (XFilter keep fl) q k id Hs Hd Hnp) as H.
   cbn [plug] in H. rewrite H. unfold pulls_in at 2.
-  rewrite (proj1 (filter_pulls_all 0 keep cfg fl (den_z q) k)). reflexivity.
+  rewrite (proj1 (filter_pulls_all 0 keep fl Hfl cfg (den_z q) k)). reflexivity.
 Qed.
 
 (* non-vacuity: Filter over First over Join of two sources *)
@@ -619,22 +641,27 @@ Proof. vm_compute. repeat split; reflexivity. Qed.
 From Juniper Require Import Iter.GapsNeed.
 
 Definition ctx_dom (c : ctx1) : Prop := match c with XChunk n => 1 <= n | _ => True end.
+(* the callback of C never panics *)
+Definition ctx_nopanic (c : ctx1) : bool :=
+  match c with XFilter _ fl | XMap _ fl | XWhile _ fl => negb (cb_panics fl) | _ => true end.
 
 Lemma plug_results cfg c q k :
-  iter_supported_z q = true -> dom_z q -> ctx_dom c ->
+  iter_supported_z q = true -> dom_z q -> no_panics_z q = true -> ctx_dom c ->
+  ctx_nopanic c = true ->
   results (run_iter_cfg cfg (plug c q) (ksteps k))
   = results (run_iter_cfg cfg (plug c (ZSrc 0 (SSlice (den_z q)))) (ksteps k)).
 Proof.
-  intros Hs Hd Hc.
+  intros Hs Hd Hnp Hc Hcn.
   rewrite !results_den;
-    try (destruct c; simpl in *; auto; fail).
+    try (destruct c; simpl in *; rewrite ?Hcn; auto; fail).
 Qed.
 
 (* C(q) has made m calls of q.Next (compose_pulls); if the m-th answer of a Slice holding q's
    items was needed by C (GapsNeed.v), it was needed by C(q): an inner iterator that answers the
    first m-1 calls like q but differently afterwards changes the first k results *)
 Theorem compose_needed cfg c q k :
-  iter_supported_z q = true -> dom_z q -> ctx_dom c ->
+  iter_supported_z q = true -> dom_z q -> no_panics_z q = true -> ctx_dom c ->
+  ctx_nopanic c = true ->
   needed cfg (fun l => plug c (ZSrc 0 (SSlice l))) 0 (den_z q) k ->
   let m := pulls_in (run_iter_cfg cfg (plug c (ZSrc 0 (SSlice (den_z q)))) (ksteps k)) 0 in
   ro_log (run_iter_cfg cfg (plug c q) (ksteps k)) = ro_log (run_iter_cfg cfg (inl q) (ksteps m)) /\
@@ -643,7 +670,7 @@ Theorem compose_needed cfg c q k :
               results (run_iter_cfg cfg (plug c (ZSrc 0 (SSlice l'))) (ksteps k))
               <> results (run_iter_cfg cfg (plug c q) (ksteps k))).
 Proof.
-  intros Hs Hd Hc Hn m. split; [apply compose_pulls; assumption|].
+  intros Hs Hd Hnp Hc Hcn Hn m. split; [apply compose_pulls; assumption|].
   intros Hm. destruct (Hn Hm) as (l' & Ha & Hr). exists l'. split; [exact Ha|].
-  rewrite (plug_results cfg c q k Hs Hd Hc). exact Hr.
+  rewrite (plug_results cfg c q k Hs Hd Hnp Hc Hcn). exact Hr.
 Qed.
